@@ -588,16 +588,25 @@ func stopPlans(l *Log, start Pos, r *rand.Rand, stride int) []AttemptPlan {
 	// two stop causes in one session: the connection is lost on its own while the handler of transaction k is still busy, and
 	// then the handler fails / the caller cancels
 	for k := 0; k < ntx; k++ {
+		// the connection is lost right after the commit event of transaction k: the reader runs into the lost connection
+		// while the handler of k is still busy
+		at := npk
+		for i := 0; i <= npk; i++ {
+			if nCommitsBefore(l, start, i) == k+1 {
+				at = i
+				break
+			}
+		}
 		for _, fk := range []string{"close", "reset"} {
 			a := defaultAttempt()
-			a.Fault = &Fault{Kind: fk, At: npk}
+			a.Fault = &Fault{Kind: fk, At: at}
 			a.HandlerBlock = k
 			a.HandlerBlockMs = 40
 			a.HandlerErrAt = k
 			out = append(out, a)
 			b := defaultAttempt()
 			b.End = "idle"
-			b.Fault = &Fault{Kind: fk, At: npk}
+			b.Fault = &Fault{Kind: fk, At: at}
 			b.CancelAtTx = k
 			b.ReleaseDelayMs = 40
 			out = append(out, b)
@@ -738,13 +747,18 @@ func modeC08(e *Env) {
 		id++
 		sc := &StreamScenario{ID: id, Fam: "c08", Log: l, Start: l.Boundaries()[0], ServerID: 21,
 			Attempts: []AttemptPlan{a}, Note: "stability"}
-		if i%2 == 1 {
-			// "after the stream has ended": the same Streamer streams the whole history again over a new connection (and
-			// the handler scribbles again) before everything delivered so far is re-read
+		if i%2 == 1 || i%8 == 0 {
+			// "after the stream has ended": the same Streamer streams the history again over a new connection, from another
+			// boundary (so that nothing arrives at the place it arrived at the first time), and the handler scribbles again,
+			// before everything delivered so far is re-read
 			b := defaultAttempt()
 			b.Scribble = a.Scribble
 			sc.Attempts = append(sc.Attempts, b)
-			sc.SetPosBefore = map[int]Pos{1: sc.Start}
+			bs := l.Boundaries()
+			sc.SetPosBefore = map[int]Pos{1: bs[(1+e.R.Intn(len(bs)))%len(bs)]}
+			if len(bs) > 2 {
+				sc.SetPosBefore[1] = bs[1+e.R.Intn(len(bs)-2)]
+			}
 		}
 		RunStreamScenario(e.Rec, sc)
 	}
